@@ -148,6 +148,16 @@ Next == /\ ib = 0
 
 Spec == Init /\ [][Next]_vars
 
+\* Implementation-shaped model of relate's fast path (relate_operation.rs / IntersectionMatrix::compute_disjoint): when the
+\* bounding boxes of the operands do not meet, the matrix is filled from the dimensions alone - interior and boundary of
+\* each operand against the exterior of the other.  ShortcutRefines: on every generated pair with disjoint boxes that matrix
+\* IS the DE-9IM matrix (this is where BDim's mod-2 rule matters: defect FX-04 was found here).
+BBoxOf(g) == LET VV == {s[1] : s \in Segs(g)} \cup {s[2] : s \in Segs(g)} IN
+             <<SetMin({v[1] : v \in VV}), SetMin({v[2] : v \in VV}), SetMax({v[1] : v \in VV}), SetMax({v[2] : v \in VV})>>
+BoxesDisjoint(a, b) == LET p == BBoxOf(a)  q == BBoxOf(b) IN p[3] < q[1] \/ q[3] < p[1] \/ p[4] < q[2] \/ q[4] < p[2]
+ShortcutMatrix(a, b) == "FF" \o DimChar(Dim(a)) \o "FF" \o DimChar(BDim(a)) \o DimChar(Dim(b)) \o DimChar(BDim(b)) \o "2"
+ShortcutRefines == (ib > 0 /\ BoxesDisjoint(Cat[ia], Cat[ib])) => ShortcutMatrix(Cat[ia], Cat[ib]) = IMofMaps(CatPos[ia], CatPos[ib], F)
+
 \* Lemmas of the oracle itself, checked on every generated state: EE is always 2, and the
 \* matrix of (b, a) is the transpose of the matrix of (a, b).
 OracleSane == ib > 0 =>
